@@ -551,13 +551,33 @@ M('C08-field-no-reset', 'C08', F_PARSER,
   "        self._pos = pos\n",
   "            return FieldNamedKey(key_name, exp, start=pos, end=self._pos)\n",
   expect='R-C08-alternatives')
-M('C08-fence-outside-try', 'C08', F_PARSER,
+M('C08-n-fence-store-before-try', 'C08', F_PARSER,
   "                outer_max_pos = self._max_pos\n"
   "                try:\n"
   "                    self._max_pos = then_end_pos\n",
   "                outer_max_pos = self._max_pos\n"
   "                self._max_pos = then_end_pos\n"
-  "                try:\n", expect='R-C08-fence')
+  "                try:\n", kind='neutral')
+M('C08-fence-no-finally', 'C08', F_PARSER,
+  "                try:\n"
+  "                    self._max_pos = then_end_pos\n"
+  "                    block = self._assert(self._chunk(),\n"
+  "                                         'valid chunk in short-if')\n"
+  "                    else_block = None\n"
+  "                    if self._accept(lexer.TokKeyword(b'else')) is not None:\n"
+  "                        # PICO-8 accepts an else with nothing after it.\n"
+  "                        else_block = self._chunk()\n"
+  "                finally:\n"
+  "                    self._max_pos = outer_max_pos\n",
+  "                if True:\n"
+  "                    self._max_pos = then_end_pos\n"
+  "                    block = self._assert(self._chunk(),\n"
+  "                                         'valid chunk in short-if')\n"
+  "                    else_block = None\n"
+  "                    if self._accept(lexer.TokKeyword(b'else')) is not None:\n"
+  "                        # PICO-8 accepts an else with nothing after it.\n"
+  "                        else_block = self._chunk()\n"
+  "                    self._max_pos = outer_max_pos\n", expect='R-C08-fence')
 M('C08-n-rename-pos', 'C08', F_PARSER,
   "        pos = self._pos\n        if self._accept(lexer.TokKeyword(b'break')) is not None:\n"
   "            return StatBreak(start=pos, end=self._pos)\n",
